@@ -222,6 +222,20 @@ def beyond_alphabet(ctx, modes):
                                        observed=repr(o.value if o.kind == 'ret' else o.exc)[:200]))
                     if len(ctx.violations) >= 3:
                         return n
+    # a caller's subclass overrides the public streaming_shell() (it yields whole lines): shell() and exec_out() still return what the device wrote
+    for si, b in enumerate([b'line1\nline2\r\nline3', b'\n\nx\n', b'no newline', b'a\x0bb\x0cc\x1cd\x85e']):
+        chunks = [b[:3], b[3:]]
+        for api in ('shell', 'exec_out'):
+            for dec in (False, True):
+                for mode in modes:
+                    spec = dict(seed=ctx.seed + si, maxdata=4096, rid='plus', frag='whole', subclass='rechunk', ops=[dict(api=api, decode=dec, cmd='s%d' % si, chunks=[c.hex() for c in chunks])])
+                    o = scen.run(spec, mode).outcomes[1]
+                    want = b.decode('utf8', 'backslashreplace') if dec else b
+                    n += 1
+                    if o.kind != 'ret' or o.value != want:
+                        ctx.violation('C01.ExactConcatenation', dict(kind='a subclass that overrides the public streaming_shell()', mode=mode, api=api, decode=dec, expected=repr(want)[:200],
+                                                                     observed=repr(o.value if o.kind == 'ret' else o.exc)[:200]))
+                        return n
     # the same commands with every argument given by position, in the documented order, and raw output asked for
     for si, b in enumerate(seqs[:8]):
         chunks = [b[:1], b[1:]] if len(b) > 1 else [b]
